@@ -343,6 +343,14 @@ theorem atomic_sweep_safe (c : Cfg) (now : Nat) (s : Shard) (h : IndexAgrees s) 
     omega
 
 
+/-- how the witnesses refute (I): an index entry whose key holds no such stored deadline -/
+theorem not_ia (s : Shard) (k : Key) (t : Nat) (h1 : lookup s.expiring k = some t)
+    (h2 : (lookup s.data k).bind (·.deadline) ≠ some t) : ¬ IndexAgrees s := by
+  intro h
+  obtain ⟨e, he, hd⟩ := h k t h1
+  rw [he] at h2
+  exact h2 hd
+
 theorem enter_nodup_idx (c : Cfg) (fn : String) (now : Nat) (s : Shard) (k : Key) (hn : NodupKeys s.expiring) :
     NodupKeys (enter c fn now s k).1.expiring := by
   unfold enter
